@@ -66,6 +66,9 @@ func main() {
 	deadline := flag.Int("deadline-s", 0, "wall clock limit for the exploration (0 = none)")
 	maxViol := flag.Int("max-violations", 3, "stored per assertion id")
 	dumpDir := flag.String("dump-unknown", "", "directory for transcripts of queries answered unknown")
+	prefixStr := flag.String("prefix", "", "comma-separated decision prefix to start from")
+	single := flag.Bool("single", false, "follow a single path (debugging)")
+	trace := flag.Bool("trace", false, "print function entries (debugging)")
 	paramStr := flag.String("params", "", "comma-separated NAME=int harness parameters (ndParam)")
 	flag.Parse()
 	params := map[string]int64{}
@@ -135,6 +138,17 @@ func main() {
 		StepBudget: *stepBudget, PathBudget: *pathBudget, MaxViolations: *maxViol,
 		SampleEvery: *sampleEvery, MaxSamples: *maxSamples, Stubs: stubs, InitPkgs: inits, Params: params, DumpDir: *dumpDir,
 	}
+	for _, d := range strings.Split(*prefixStr, ",") {
+		d = strings.TrimSpace(d)
+		if d == "" {
+			continue
+		}
+		var v int32
+		fmt.Sscan(d, &v)
+		cfg.Prefix = append(cfg.Prefix, v)
+	}
+	cfg.Single = *single
+	cfg.Trace = *trace
 	if *deadline > 0 {
 		cfg.Deadline = time.Now().Add(time.Duration(*deadline) * time.Second)
 	}
